@@ -20,6 +20,7 @@ from ..monitor import call_real, describe_exc, reach
 
 ID = 'C15'
 LEVEL = 'exploration'
+DEBUG_TOGGLE = True  # runner flips the library debug flag every 97 monitored executions
 TECHNIQUE = 'runtime monitoring: direct array-level post-condition (shape, dtype kind, bounds) on every convert() of the real representations, cross-checked against Space.contains and the gym-layer spaces, over sampled/enumerated spaces with every (type, status, colour) object placed in every cell class; every step of shipped trajectories through OuterEnv and GymEnvironment'
 LEVEL_TEXT = ('For each space (type subset x colour subset x grid/view shape; quick: seeded sample incl. all singletons, the full set '
               'and each shipped set, thorough: all 255 type subsets) and each of the three representations, every (type, status, '
